@@ -7,21 +7,29 @@ import common
 from common import Check, sx, hist
 import fileh
 from fileh import RecordingSource, canon_ctx, deep_sxstr
+from vinegar.transform import get_transformation_chain
 
-# find_system table of the recording data source (key, value) -> answer
+# find_system table of the recording data source: (key, tag(value)) -> answer (values are typed, see fileh.tag)
 TABLE = {
-    ("k", "a"): ("id", "sysA"),
-    ("k", "A"): ("id", "sys-A"),
-    ("k", "T-a-S"): ("id", "sysT"),
-    ("k", "b"): ("raise",),
-    ("k", "T-b-S"): ("raise",),
-    ("k", "x"): ("none",),
-    ("k", "ab"): ("id", "sysAB"),
+    ("k", "s:a"): ("id", "sysA"),
+    ("k", "s:A"): ("id", "sys-A"),
+    ("k", "s:T-a-S"): ("id", "sysT"),
+    ("k", "s:b"): ("raise",),
+    ("k", "s:T-b-S"): ("raise",),
+    ("k", "s:x"): ("none",),
+    ("k", "s:ab"): ("id", "sysAB"),
+    ("k", "int:12"): ("id", "sys12"),
+    ("k", "int:7"): ("id", "sys-A"),
+    ("k", "list:['a', 'b']"): ("id", "sysL"),
+    ("k", "list:['a']"): ("id", "sysA"),
+    ("k", "s:12"): ("id", "sys-str-12"),
+    ("k", "s:['a', 'b']"): ("id", "sys-str-list"),
 }
-RAISING = ["sys-A", "b", "T-b-S"]       # get_data raises for these ids
-FS_ROWS = [[k, v, {"none": 0, "id": 1, "raise": 2}[r[0]], r[1] if r[0] == "id" else ""] for (k, v), r in TABLE.items()]
+RAISING = ["s:sys-A", "s:b", "s:T-b-S", "int:7", "list:['b']"]       # get_data raises for these (tagged) ids
+FS_ROWS = [[k, v, {"none": 0, "id": 1, "raise": 2}[r[0]], fileh.tag(r[1]) if r[0] == "id" else ""]
+           for (k, v), r in TABLE.items()]
 
-ALPHABET = ["/", "a", "b", "pre-", "-suf", "x", "%2f", "%2F", "%41", "?q", "%00", "\0", "A", ".", "%25", "%3f"]
+ALPHABET = ["/", "a", "b", "pre-", "-suf", "x", "%2f", "%2F", "%41", "?q", "%00", "\0", "A", ".", "%25", "%3f", "12"]
 
 # request_path shapes: (request_path, placeholder or None for the default "...", needs lookup)
 SHAPES_PLAIN = ["/", "/a", "/a/b", "/a/", "a", "", "//a", "/a//b"]
@@ -33,9 +41,20 @@ SHAPES_LOOKUP = [
 ]
 
 
-def mkcfg(rpath, filemode, key="", ph=None, cont=False, ign=0, template=True, tpre="", tsuf="", suffix=""):
+def mkcfg(rpath, filemode, key="", ph=None, cont=False, ign=0, template=True, tpre="", tsuf="", suffix="", chain=None):
     return {"rpath": rpath, "filemode": filemode, "target": "file.tpl" if filemode else "root", "suffix": suffix,
-            "key": key, "ph": ph, "cont": cont, "ign": ign, "template": template, "tpre": tpre, "tsuf": tsuf}
+            "key": key, "ph": ph, "cont": cont, "ign": ign, "template": template, "tpre": tpre, "tsuf": tsuf,
+            "chain": chain}
+
+
+# transformation chains whose result is not a str (the data source and the template must get the value as it is)
+TYPED_SETTINGS = [
+    dict(key="k", chain=["misc.to_int"]),
+    dict(key=":system_id:", chain=["misc.to_int"], ign=1),
+    dict(key="k", chain=[{"string.split": "-"}], cont=True),
+    dict(key=":system_id:", chain=[{"string.split": ["-"]}]),
+    dict(key="k", chain=[{"string.add_prefix": "1"}, "misc.to_int"], cont=True, ign=2),
+]
 
 
 def all_configs():
@@ -57,6 +76,10 @@ def all_configs():
             for fm in (True, False):
                 out.append(mkcfg(rp, fm, ph=ph, **st))
         out.append(mkcfg(rp, False, ph=ph, key="k", suffix=".j2"))
+        if i in (0, 3):
+            for st in TYPED_SETTINGS:
+                for fm in (True, False):
+                    out.append(mkcfg(rp, fm, ph=ph, **st))
     return out
 
 
@@ -64,11 +87,14 @@ def base_requests(cfg):
     """requests that fit the configured path: placeholder replaced by sample values, plus extra paths"""
     rp = cfg["rpath"]
     ph = fileh.PH_DEFAULT if cfg["ph"] is None else cfg["ph"]
-    values = ["a", "A", "%41", "b", "x", "ab", "", "a/b", "a%2fb", "pre-a-suf", "ba", "aba", ".", "%2541", "%252f"]
+    values = ["a", "A", "%41", "b", "x", "ab", "", "a/b", "a%2fb", "pre-a-suf", "ba", "aba", ".", "%2541", "%252f",
+              "12", "2", "7", "a-b", "%31%32", "b-"]
     extras = ["", "/a", "/b", "/bb/a", "//a", "/", "/a/", "?q", "/a?q", "/%41"]
     outs = []
     if cfg["key"] and ph and ph in rp:
         for vi, v in enumerate(values):
+            if vi >= 15 and not cfg.get("chain"):
+                continue
             for e in (extras if vi < 2 else (extras[:2] if vi < 6 else extras[:1] if cfg["filemode"] else extras[1:2])):
                 outs.append(rp.replace(ph, v, 1) + e)
     else:
@@ -109,6 +135,7 @@ class C06(Check):
 
     def __init__(self):
         self._handlers = {}
+        self._sxcache = {}
         self._tree = False
 
     def tree(self):
@@ -138,6 +165,7 @@ class C06(Check):
             cfgs = cfgs[::int(os.environ["C06_LIMIT_CFGS"])]
         short = list(fileh.tokens_upto(ALPHABET, n_all))
         short2 = list(fileh.tokens_upto(ALPHABET, 2))
+        short1 = list(fileh.tokens_upto(ALPHABET, 1))
         for ci, cfg in enumerate(cfgs):
             for tftp in (False, True):
                 seen = set()
@@ -147,7 +175,7 @@ class C06(Check):
                         return None
                     seen.add(u)
                     return {"tftp": tftp, "cfg": cfg, "uri": u}
-                for u in (short if (tier == "quick" or ci % 4 == 0) else short2):
+                for u in ((short if ci % 2 == 0 else short1) if tier == "quick" else (short if ci % 4 == 0 else short2)):
                     c = emit(u)
                     if c:
                         yield c
@@ -157,14 +185,14 @@ class C06(Check):
                     if c:
                         yield c
                 # every one-token edit of some fitting requests (a rotating choice in the quick tier)
-                nb = 1 if tier == "quick" else 4
+                nb = 1 if tier == "quick" else 3
                 for bi in range(nb):
                     toks = tokenize(bases[(ci * 7 + bi * 3 + (1 if tftp else 0)) % len(bases)])
                     for t in sorted(fileh.edits(toks, ALPHABET, 1)):
                         c = emit("".join(t))
                         if c:
                             yield c
-                nrand = 60 if tier == "quick" else 400
+                nrand = 30 if tier == "quick" else 300
                 for _ in range(nrand):
                     toks = list(tokenize(rng.choice(bases)))
                     for _e in range(rng.randrange(2, 5)):
@@ -231,8 +259,31 @@ class C06(Check):
     def line(self, c, obs):
         cfg = c["cfg"]
         files = self._files_file if cfg["filemode"] else self._files_root
-        return sx([c["tftp"], bool(c.get("old2f")), fileh.cfg_sx(cfg), cfg["tpre"], cfg["tsuf"], FS_ROWS, RAISING,
-                   files, c["uri"], self.canon(obs)])
+        ttable = []
+        if cfg.get("chain"):
+            # oracle for the transformation chain: the real chain, called directly, on the raw values that occur
+            raws = []
+            if obs[1][1]:
+                raws.append(obs[1][1][0])
+            if obs[4] and obs[4][1][1] and obs[4][1][1][0] not in raws:
+                raws.append(obs[4][1][1][0])
+            fn = get_transformation_chain(cfg["chain"])
+            rows = []
+            for v in raws:
+                try:
+                    rows.append([v, fileh.tag(fn(v))])
+                except Exception as ex:
+                    rows.append([v, "?chain-raised:" + type(ex).__name__])
+            ttable = [rows]
+        # the constant parts are rendered once (the sx text of a list is the texts of its items in parentheses)
+        ck = (json.dumps(cfg, sort_keys=True), cfg["filemode"])
+        const = self._sxcache.get(ck)
+        if const is None:
+            const = (sx(fileh.cfg_sx(cfg)) + " " + sx(cfg["tpre"]) + " " + sx(cfg["tsuf"]),
+                     sx(deep_sxstr(FS_ROWS)) + " " + sx(deep_sxstr(RAISING)) + " " + sx(files))
+            self._sxcache[ck] = const
+        return ("(" + sx(c["tftp"]) + " " + sx(bool(c.get("old2f"))) + " " + const[0] + " " + sx(deep_sxstr(ttable))
+                + " " + const[1] + " " + sx(c["uri"]) + " " + sx(self.canon(obs)) + ")")
 
     def canon(self, obs):
         return deep_sxstr(obs)
